@@ -191,7 +191,57 @@ func limModel(mc limModelCfg) porcupine.Model {
 	return nm.ToModel()
 }
 
+// limiterSubSecond: an Expiration below one second. Which window the middleware makes of it is its own
+// business (the statement does not say); whatever it is, it lasts at least as long as configured, so a
+// burst of requests at one instant spans at most two windows.
+func limiterSubSecond(s *simrt.Sim, info *harness.RunInfo) {
+	sliding := s.Chance(500)
+	max := s.Range(1, 3)
+	exp := simrt.PickS(s, 500*time.Millisecond, 100*time.Millisecond, 999*time.Millisecond)
+	useSim := s.Chance(400)
+	harness.StartCoarseClock(s, 0)
+	cfg := limiter.Config{Max: max, Expiration: exp, KeyGenerator: func(c fiber.Ctx) string { return strings.Clone(c.Get("X-Key")) }}
+	if sliding {
+		cfg.LimiterMiddleware = limiter.SlidingWindow{}
+	}
+	if useSim {
+		cfg.Storage = harness.NewSimStorage(s, "limiter-store")
+	}
+	cfgLine := fmt.Sprintf("sub-second expiration=%v sliding=%v max=%d sim=%v", exp, sliding, max, useSim)
+	s.Logf("cfg %s", cfgLine)
+	app := fiber.New()
+	app.Use(limiter.New(cfg))
+	ran := 0
+	app.Get("/", func(c fiber.Ctx) error { ran++; return c.SendString("ok") })
+	app.Handler()
+	conn := harness.NewConn(app, "10.0.0.1")
+	simrt.Sleep(time.Duration(s.Draw(3000)) * time.Millisecond)
+	n := 2*max + 2
+	first := 0
+	for i := 0; i < n; i++ {
+		resp := conn.Do(harness.Req{Path: "/", Headers: [][2]string{{"X-Key", "burst"}}}.Bytes())
+		if i == 0 {
+			first = resp.Status
+		}
+		s.Logf("burst request %d: status %d", i, resp.Status)
+	}
+	if first != 200 {
+		s.Fail("C13.overreject", "Expiration=%v Max=%d: the first request of a key was answered %d although nothing had been counted yet", exp, max, first)
+	}
+	if ran > 2*max {
+		s.Fail("C13.overadmit", "Expiration=%v Max=%d: %d of %d requests sent at one instant reached the handler; an instant belongs to at most two windows (at most %d)", exp, max, ran, n, 2*max)
+	}
+	s.Count("probe_sub_second_expiration")
+	info.StateHash = newHasher().str(cfgLine).h
+	info.Nontrivial = true
+	info.Sample = map[string]any{"config": cfgLine}
+}
+
 func limiterMain(s *simrt.Sim, info *harness.RunInfo) {
+	if s.Chance(50) {
+		limiterSubSecond(s, info)
+		return
+	}
 	harness.ChooseTransportNoPause(s, 150) // some runs go through fasthttp's real connection loop
 	sliding := s.Chance(500)
 	cfgMax := s.Range(1, 5)
